@@ -30,6 +30,8 @@ func runC13Gaps2(c *eng.Ctx) {
 	c13gHandleListPage(c)
 	c13gViewTxnPrefix(c)
 	c13gTxnLayers(c)
+	c13gSeekNotCleaned(c)
+	c13gFileKeyEncoding(c)
 }
 
 // ---- file backend: sort, then skip the element equal to 'after', then cut to a positive limit
@@ -726,5 +728,134 @@ func c13gTxnLayers(c *eng.Ctx) {
 	c.Floor(nil, "operations declared on wrapping transaction types", nOps, 8)
 	if len(base) > 0 {
 		c.OK(nil, "family{transaction layers}", token.NoPos, fmt.Sprintf("%d wrapping transaction type(s); base transactions (own Commit, not held to this rule): %s", nWrap, strings.Join(base, ", ")))
+	}
+}
+
+// c13gSeekConcat: the seek position is []byte(prefix + after) of the listing's own parameters.
+func c13gSeekConcat(pos ssa.Value) bool {
+	for {
+		if cv, ok := pos.(*ssa.Convert); ok {
+			pos = cv.X
+			continue
+		}
+		break
+	}
+	bo, ok := pos.(*ssa.BinOp)
+	if !ok || bo.Op != token.ADD {
+		return false
+	}
+	x, okX := bo.X.(*ssa.Parameter)
+	y, okY := bo.Y.(*ssa.Parameter)
+	return okX && okY && eng.VarName(x) == "prefix" && eng.VarName(y) == "after"
+}
+
+// ---- the seek position of a paginated raft listing is not a cleaned path:
+// 'after' is an arbitrary string that is compared bytewise with entry names;
+// cleaning it (filepath.Join / Clean) moves the start of the scan past entries
+// that sort after 'after' ("./y", "a/../y").
+func c13gSeekNotCleaned(c *eng.Ctx) {
+	c.Clause("R5", "C13.3")
+	n := 0
+	for _, f := range c.P.Funcs {
+		if !eng.InPkg(f, "raft") {
+			continue
+		}
+		var pAfter *ssa.Parameter
+		for _, p := range f.Params {
+			if eng.VarName(p) == "after" {
+				pAfter = p
+			}
+		}
+		if pAfter == nil {
+			continue
+		}
+		for _, sk := range eng.Calls(f, `bbolt\.Cursor\)\.Seek$`) {
+			pos := sk.Common().Args[1]
+			if !c14gMentions(pos, c14gIs(pAfter)) {
+				continue
+			}
+			n++
+			site := "prov{seek position of a paginated listing is not a cleaned path}"
+			var cleaner string
+			c14gMentions(pos, func(v ssa.Value) bool {
+				if cl, ok := v.(*ssa.Call); ok {
+					switch nm := eng.CalleeName(&cl.Call); nm {
+					case "path/filepath.Join", "path/filepath.Clean", "path.Join", "path.Clean":
+						if c14gMentions(cl, c14gIs(pAfter)) {
+							cleaner = nm
+							return true
+						}
+					}
+				}
+				return false
+			})
+			if cleaner == "" {
+				c.OK(f, site, sk.Pos(), eng.ExprDeep(pos))
+			} else {
+				c.Violation(f, site, sk.Pos(), "the cursor seeks to "+cleaner+"(…after…): cleaning changes the byte order of 'after' (\"./y\" becomes \"y\", \"a/../y\" becomes \"y\"), the scan starts beyond entries that sort after 'after' and the page is not the corresponding slice of the full listing", nil)
+			}
+		}
+	}
+	c.Floor(nil, "cursor seeks positioned by 'after'", n, 2)
+}
+
+// ---- the file backend's on-disk name of a key: a key is an arbitrary string
+// ("foo" and "foo/", "a/b" and "a//b" are different keys of every other
+// backend); deriving the file name through path cleaning (filepath.Join / Base
+// / Dir) maps distinct keys to one file unless unclean keys are refused first.
+func c13gFileKeyEncoding(c *eng.Ctx) {
+	const recv = "(*" + eng.ModSDK + "/physical/file.FileBackend)."
+	f := c.Fn(recv + "expandPath")
+	vp := c.Fn(recv + "validatePath")
+	if f == nil || vp == nil || len(f.Params) < 2 || len(vp.Params) < 2 {
+		return
+	}
+	c.Clause("R5", "C13.2")
+	key := f.Params[1]
+	cleaners := map[string]bool{"path/filepath.Join": true, "path/filepath.Clean": true, "path/filepath.Base": true, "path/filepath.Dir": true, "path.Join": true, "path.Clean": true, "path.Base": true, "path.Dir": true}
+	var used []string
+	seen := map[string]bool{}
+	for _, r := range eng.Returns(f) {
+		for _, res := range r.Results {
+			c14gMentions(res, func(v ssa.Value) bool {
+				if cl, ok := v.(*ssa.Call); ok {
+					if nm := eng.CalleeName(&cl.Call); cleaners[nm] && !seen[nm] && c14gMentions(cl, c14gIs(key)) {
+						seen[nm] = true
+						used = append(used, nm)
+					}
+				}
+				return false
+			})
+		}
+	}
+	sort.Strings(used)
+	site := "prov{on-disk name of a key is not a cleaned path of it (or unclean keys are refused)}"
+	if len(used) == 0 {
+		c.OK(f, site, f.Pos(), "the file name is not derived from the key through a path-cleaning function")
+		return
+	}
+	// does validatePath refuse keys that cleaning changes? (a comparison of Clean(path) with path)
+	refuses := false
+	for _, b := range vp.Blocks {
+		iff := eng.IfOf(b)
+		if iff == nil {
+			continue
+		}
+		bo, ok := iff.Cond.(*ssa.BinOp)
+		if !ok || !(bo.Op == token.EQL || bo.Op == token.NEQ) {
+			continue
+		}
+		isClean := func(v ssa.Value) bool {
+			cl, ok := v.(*ssa.Call)
+			return ok && strings.HasSuffix(eng.CalleeName(&cl.Call), ".Clean") && len(cl.Call.Args) == 1 && cl.Call.Args[0] == ssa.Value(vp.Params[1])
+		}
+		if (isClean(bo.X) && bo.Y == ssa.Value(vp.Params[1])) || (isClean(bo.Y) && bo.X == ssa.Value(vp.Params[1])) {
+			refuses = true
+		}
+	}
+	if refuses {
+		c.OK(f, site, f.Pos(), "name derived through "+strings.Join(used, ", ")+", and validatePath compares Clean(key) with the key")
+	} else {
+		c.Violation(f, site, f.Pos(), "the file that stores a key is named through "+strings.Join(used, ", ")+" of the key and validatePath only refuses \"..\": the distinct keys \"foo\" and \"foo/\" (\"a/b\" and \"a//b\", \"a/./b\") share one file — a put of one overwrites the other, a delete of one removes the other, and listings differ from every other backend", nil)
 	}
 }
